@@ -106,6 +106,15 @@ def order_sweep(ctx, db, aff, r):
             except Exception as e:
                 ctx.ev()
                 ctx.violation("FractionScalar:construction-raised", dict(case, error=repr(e)[:200]), replay=case)
+        # amounts so large that their base amounts leave the float range (both become inf there): no order can be demanded of
+        # them, but the four operators still have to be coherent with one another
+        if u != v:
+            for x, y in ((1e306, 1e306), (-1e306, -1e307), (1e308, 1e305)):
+                ctx.ev()
+                try:
+                    order_pair(ctx, Scalar(x, u), Scalar(y, v), Fr(0), Fr(0), Fr(10) ** 400, {"qt": qt, "u": u, "v": v, "x": x, "y": y, "huge": True}, "Scalar(huge)")
+                except Exception as e:
+                    ctx.violation("Scalar(huge):construction-raised", {"qt": qt, "u": u, "v": v, "error": repr(e)[:160]})
         # equal amounts written with different number / fraction splits (same and different units)
         for (n1, f1), (n2, f2) in (((1, (1, 2)), (1.5, (0, 1))), ((0, (3, 2)), (1, (1, 2))), ((2, (3, 4)), (2.75, (0, 1))), ((5, (1, 4)), (4, (5, 4)))):
             x1 = n1 + f1[0] / f1[1]
@@ -261,13 +270,14 @@ def equality_pool(r):
         "Scalar(constructor quantity)": Scalar(Quantity("length", "m"), v), "Scalar(lbmol)": Scalar("amount of substance", v, "lbmol"), "Scalar(lbmole)": Scalar("amount of substance", v, "lbmole"),
         "UnitSystem(id None)": UnitSystem(None, "Null", {}, True), "UnitSystem(the manager's null system)": _null_system(),
         "fractions.Fraction": pyfractions.Fraction(1, 2), "Decimal": decimal.Decimal("0.5"), "rational look-alike": _Rational(1, 2), "np.int64": np.int64(1), "np.float64": np.float64(0.5),
+        "huge int": 10**400, "huge negative int": -(10**400), "inf": float("inf"), "nan": float("nan"), "2**1024": 2**1024,
         "complex": 1 + 0j, "bytes": b"x", "frozenset": frozenset([1]), "range": range(2), "type": Scalar,
         "None": None, "str": "x", "int": 1, "float": 0.5, "tuple": (1, 2), "list": [1.0, 2.0], "dict": {"a": 1}, "object": object(), "bool": True, "int0": 0, "float1.5": 1.5,
     }  # fmt: skip
     return objs
 
 
-FOREIGN = {"None", "str", "int", "float", "tuple", "list", "dict", "object", "bool", "int0", "float1.5", "fractions.Fraction", "Decimal", "rational look-alike", "np.int64", "np.float64", "complex", "bytes", "frozenset", "range", "type"}
+FOREIGN = {"None", "str", "int", "float", "tuple", "list", "dict", "object", "bool", "int0", "float1.5", "fractions.Fraction", "Decimal", "rational look-alike", "np.int64", "np.float64", "complex", "bytes", "frozenset", "range", "type", "huge int", "huge negative int", "inf", "nan", "2**1024"}
 
 
 class _Rational:
